@@ -212,14 +212,29 @@ fn run_one(cx: &Ctx<'_>, cfg: &NetCfg, ops: &[Op], prefix: &[usize], allow_dev: 
         // on every node that was not stopped yet returns within its bound
         let mut stuck_nodes: Vec<usize> = Vec::new();
         if liveness_ok {
+            // while the query sits at one slow lock-section boundary (a different one per node and schedule), a new peer
+            // connects to the node and a local store runs: connection handling and the query meet between their
+            // critical sections
+            const PROBE_SLOW: [&str; 3] = ["find_closest_nodes_local:before-peers", "find_closest_nodes_local:before-table", "handle_peer_connected:after-peers"];
             for i in 0..n {
+                saorsa_core::verif_hooks::set_sched_slow_point(None);
+                saorsa_core::verif_hooks::set_sched_slow_point(Some((PROBE_SLOW[(i + prefix.len()) % PROBE_SLOW.len()], 6)));
                 let m = net.nodes[i].mgr.clone();
                 let probe = tokio::spawn(async move {
                     let _ = m.find_closest_nodes_local(&[0u8; 32], 8).await;
                     let _ = m.get_connected_peers().await;
                 });
+                {
+                    use saorsa_core::verif_hooks::VerifSocket;
+                    let ctid = tid_with_prefix((3 + i as u32) % 16, cfg.bits, 9000 + i as u32);
+                    let caddr: std::net::SocketAddr = format!("172.{}.0.9:9000", 60 + i).parse().unwrap();
+                    let sock = world.add_endpoint(ctid, caddr, true);
+                    let _ = sock.connect(&[net.nodes[i].addr]).await;
+                    bg_notify[i].notify_one();
+                }
                 settle().await;
                 settle().await;
+                saorsa_core::verif_hooks::set_sched_slow_point(None);
                 if !probe.is_finished() {
                     tokio::time::sleep(Duration::from_secs(1)).await;
                 }
